@@ -112,6 +112,19 @@ func objectRoot(v *jr.Value, _ []byte) bool    { return v.K == jr.Obj }
 func nonNull(v *jr.Value, _ []byte) bool       { return v.K != jr.Null }
 func anyRoot(v *jr.Value, _ []byte) bool       { return true }
 
+// the array form of CreateMergePatch: both arguments arrays of objects of the same length
+func oneObjectArray(v *jr.Value, _ []byte) bool { return v.K == jr.Arr && len(v.A) == 1 && v.A[0].K == jr.Obj }
+func objectsOrObject(v *jr.Value, _ []byte) bool {
+	if v.K == jr.Arr {
+		for _, e := range v.A {
+			if e.K != jr.Obj {
+				return false
+			}
+		}
+	}
+	return v.K == jr.Obj || v.K == jr.Arr
+}
+
 var emptyPatch = func() jp.Patch { p, _ := jp.DecodePatch([]byte(`[]`)); return p }()
 
 var gates = []gate{
@@ -124,6 +137,9 @@ var gates = []gate{
 	{"MergeMergePatches(_,p2)", func(x []byte) bool { _, err := jp.MergeMergePatches([]byte(`{"k":1}`), x); return err == nil }, anyRoot},
 	{"CreateMergePatch(a,_)", func(x []byte) bool { _, err := jp.CreateMergePatch(x, []byte(`{"k":1}`)); return err == nil }, objectRoot},
 	{"CreateMergePatch(_,b)", func(x []byte) bool { _, err := jp.CreateMergePatch([]byte(`{"k":1}`), x); return err == nil }, objectRoot},
+	{"CreateMergePatch([..],_)", func(x []byte) bool { _, err := jp.CreateMergePatch(x, []byte(`[{"k":1}]`)); return err == nil }, oneObjectArray},
+	{"CreateMergePatch(_,[..])", func(x []byte) bool { _, err := jp.CreateMergePatch([]byte(` [{"k":1}] `), x); return err == nil }, oneObjectArray},
+	{"CreateMergePatch(x,x)", func(x []byte) bool { _, err := jp.CreateMergePatch(x, append([]byte{}, x...)); return err == nil }, objectsOrObject},
 	{"Equal(x,x)", func(x []byte) bool { return jp.Equal(x, append([]byte{}, x...)) }, anyRoot},
 	{"Equal(x,{})", func(x []byte) bool { jp.Equal(x, []byte(`{}`)); return jp.Equal([]byte(`{}`), x) }, func(v *jr.Value, _ []byte) bool { return v.K == jr.Obj && len(v.Keys) == 0 }},
 }
@@ -270,6 +286,13 @@ func init() {
 						// included) spelled with random escapes, members shuffled, whitespace between tokens
 						t = gen.Hostile().With(func(p *gen.Profile) { p.WS = 25 }).Respell(c.R, mustParse(t), true)
 					}
+				case 2:
+					// arrays of objects (the array form of CreateMergePatch), also with something wrong outside the elements
+					var es []string
+					for k := c.R.Intn(3); k >= 0; k-- {
+						es = append(es, prof.Object(c.R, 2))
+					}
+					t = "[" + strings.Join(es, []string{",", ",", ",", " ", ",,"}[c.R.Intn(5)]) + []string{"]", "]", "]", "]]", ",]", "] , [3]", `]{"x":[]`, "] ]"}[c.R.Intn(8)]
 				default:
 					t = prof.Root(c.R)
 				}
